@@ -61,9 +61,9 @@ def run(chk, scratch):
         scen = [s for s in scen if not s["fault"]]
         linked = [s for s in scen if s["target"] != "none"]
         plain = [s for s in scen if s["target"] == "none"]
-        blanks = [s for s in scen if s["spelling"] == "blanks" and len(s["present"]) >= 3]
-        scen = rnd.sample(linked, min(650, len(linked))) + rnd.sample(plain, min(150, len(plain))) + rnd.sample(faulty, min(120, len(faulty))) + rnd.sample(blanks, min(150, len(blanks)))
-    chk.cov["scenarios_with_blank_bearing_names"] = sum(1 for s in scen if s["spelling"] == "blanks")
+        blanks = [s for s in scen if s["spelling"] != "plain" and len(s["present"]) >= 3]
+        scen = rnd.sample(linked, min(650, len(linked))) + rnd.sample(plain, min(150, len(plain))) + rnd.sample(faulty, min(120, len(faulty))) + rnd.sample(blanks, min(260, len(blanks)))
+    chk.cov["scenarios_with_blank_bearing_names"] = sum(1 for s in scen if s["spelling"] != "plain")
     chk.nontrivial += sum(1 for s in scen if s["target"] != "none" or s["pattern"])
     chk.sample({"scenario": scen[0]})
     inp = os.path.join(scratch, "c04-scen.ndjson")
